@@ -115,6 +115,19 @@ func vfC05(env *vfc.Env) {
 			}
 		}
 	}
+	if a.Targeted {
+		// a client writes a key with the SAME 64-bit hash as the record GC is relocating
+		i := 0
+		for _, step := range []string{"gc.afterNewestCheck", "gc.afterCopy", "gc.updatepos.mid", "gc.afterRepoint"} {
+			for _, merge := range []bool{false, true} {
+				id := fmt.Sprintf("x%d-%s-sibling-set-merge=%v", i, strings.TrimPrefix(step, "gc."), merge)
+				i++
+				if env.Want(id) {
+					vfC05Sibling(env, id, rnd.Split(uint64(7700+i)), step, merge)
+				}
+			}
+		}
+	}
 	if a.Targeted && !a.NoDumper {
 		for i, merge := range []bool{false, true} {
 			id := fmt.Sprintf("d%d-dumper-holds-chunk-while-gc-clears-it-merge=%v", i, merge)
@@ -428,6 +441,141 @@ func vfC05Placement(env *vfc.Env, id string, r *ref.Rand, step, action string, m
 	sched.ReleaseAll()
 	all := append(append([]lincheck.Op{}, pre.ops...), cl.ops...)
 	vfC05Finish(res, id, c, sut, all, r)
+	res.Event("placement_cases", 1)
+}
+
+// vfC05Sibling: while GC is parked at one of its per-record steps for key A, a client
+// sets a key S that has the same 64-bit key hash as A (the tree entry of that hash is
+// shared). Neither may lose its value: after the pass and after a restart A reads its
+// last acknowledged value and S reads its own. Versions are not compared (colliding keys
+// share one version counter, C13).
+func vfC05Sibling(env *vfc.Env, id string, r *ref.Rand, step string, merge bool) {
+	res := env.Res
+	cfg := vfC05Config(r)
+	c := &vfC05Case{Cfg: cfg, Kind: "sibling-placement", Merge: merge, Step: step, Action: "sibling-set", Seed: r.Uint64()}
+	c.Keys = vfTagSafeKeys(r, r.Range(3, 6), cfg)
+	maxVal := vfC05MaxVal(cfg)
+	res.Begin(id, c)
+	sut, err := vfOpenSUT(cfg, filepath.Join(env.Work, id), res)
+	if err != nil {
+		res.Violate(id, "c05:open-error", err.Error(), c)
+		return
+	}
+	defer sut.Destroy()
+	defer store.VFSetHashFunc(nil)
+	hooks := vfc.InstallHooks()
+	pre := vfC05Preload(sut, c.Keys, r, maxVal)
+	ranges := store.VFLegalRanges(sut.hs, 0)
+	var target string
+	var rg [4]int
+	for _, cand := range ranges {
+		for _, k := range c.Keys {
+			ver, _, chunk, _, found := store.VFTreeEntry(sut.hs, k)
+			if found && ver > 0 && chunk >= cand[0] && chunk <= cand[1] {
+				target, rg = k, cand
+			}
+		}
+	}
+	if target == "" {
+		res.Event("placement_no_target", 1)
+		return
+	}
+	sib := target + "~s"
+	th := ref.KeyHash([]byte(target))
+	store.VFSetHashFunc(func(key []byte) uint64 {
+		if string(key) == sib {
+			return th
+		}
+		return ref.KeyHash(key)
+	})
+	c.Range = [2]int{rg[0], rg[1]}
+	c.Keys = append(c.Keys, sib)
+	// the last acknowledged value of the target
+	wantID := ""
+	for _, o := range pre.ops {
+		if o.Key == target && o.Accepted {
+			wantID = ""
+			if o.Kind == "set" {
+				wantID = o.ID
+			}
+		}
+	}
+	sut.quiet = false
+	sched := vfc.NewSched(c.Seed, 0)
+	hooks.SetPoint(sched.Hook)
+	trap := sched.AddTrapStr("gc", "gc", step, target, 1)
+	gcDone := make(chan struct{})
+	go func() {
+		sched.SetRole("gc")
+		store.VFGCDirect(sut.hs, 0, rg[0], rg[1], merge)
+		close(gcDone)
+	}()
+	cl := &vfClient{hs: sut.hs, id: 1}
+	sched.SetRole("client")
+	parked := make(chan bool, 1)
+	go func() { parked <- trap.WaitParked(vfWatchdog) }()
+	reached := false
+	select {
+	case ok := <-parked:
+		if ok {
+			reached = true
+			cl.set(sib, "random", r.Range(60, maxVal))
+		}
+	case <-gcDone:
+	}
+	trap.Release()
+	<-gcDone
+	sched.ReleaseAll()
+	hooks.SetPoint(nil)
+	hooks.WaitQuiescent(vfWatchdog)
+	if !reached {
+		res.Event("placement_step_not_reached", 1)
+		return
+	}
+	res.Seen(fmt.Sprintf("placement/%s/sibling-set/merge=%v", step, merge))
+	res.Event("placements_reached", 1)
+	res.Event("sibling_placements", 1)
+	sibID := ""
+	for _, o := range cl.ops {
+		if o.Kind == "set" && o.Accepted {
+			sibID = o.ID
+		} else if o.Err != "" {
+			res.Violate(id, "c05:sibling:set-error", fmt.Sprintf("set of %q (same hash as %q, which GC is relocating at %s): %s", sib, target, step, o.Err), c)
+			return
+		}
+	}
+	check := func(phase string, hs *store.HStore) bool {
+		rd := &vfClient{hs: hs, id: 97}
+		for _, kv := range [][2]string{{target, wantID}, {sib, sibID}} {
+			op := rd.get(kv[0], false, true)
+			res.Eval(1)
+			switch {
+			case op.Err != "":
+				res.Violate(id, "c05:sibling:"+phase+":get-error", fmt.Sprintf("key %q %s: %s (GC was parked at %s for %q while %q, same hash, was set)", kv[0], phase, op.Err, step, target, sib), map[string]interface{}{"case": c, "history": append(pre.ops, cl.ops...)})
+				return false
+			case kv[1] != "" && op.Ver <= 0:
+				res.Violate(id, "c05:sibling:"+phase+":lost-write", fmt.Sprintf("key %q %s reads as a miss; its last acknowledged write is value %s (GC was parked at %s for %q while %q, same hash, was set)", kv[0], phase, kv[1], step, target, sib), map[string]interface{}{"case": c, "history": append(pre.ops, cl.ops...)})
+				return false
+			case kv[1] != "" && (op.GotID != kv[1] || !op.ValueOK):
+				res.Violate(id, "c05:sibling:"+phase+":wrong-value", fmt.Sprintf("key %q %s reads value %q (bytes ok=%v); its last acknowledged write is value %s", kv[0], phase, op.GotID, op.ValueOK, kv[1]), map[string]interface{}{"case": c, "history": append(pre.ops, cl.ops...)})
+				return false
+			case kv[1] == "" && op.Ver > 0:
+				res.Violate(id, "c05:sibling:"+phase+":resurrected", fmt.Sprintf("key %q %s reads value %q although its last acknowledged write is a delete", kv[0], phase, op.GotID), map[string]interface{}{"case": c, "history": append(pre.ops, cl.ops...)})
+				return false
+			}
+		}
+		return true
+	}
+	if !check("after-gc", sut.hs) {
+		return
+	}
+	rm := []string{"", "hash", "all"}[r.Intn(3)]
+	sut.quiet = true
+	if _, err := sut.Restart(rm); err != nil {
+		res.Violate(id, "c05:restart-error", fmt.Sprintf("reopen failed (removed %q): %v", rm, err), c)
+		return
+	}
+	check("after-restart-rm-"+rm, sut.hs)
 	res.Event("placement_cases", 1)
 }
 
